@@ -92,7 +92,7 @@ pub fn build_server(max_head: usize) -> Server {
             }
             _ => {
                 h.add("connection", &b"x"[..]);
-                h.remove("Connection");
+                let _ = h.remove("Connection");
                 h.add("connection", &b"Close"[..]);
             }
         }
